@@ -7,6 +7,7 @@ DEVS = {
     "Dev_AfterSpawnKillDetached": "TRUE",    # D3
     "Dev_BuiltinIgnoreList": "TRUE",         # D11
     "Dev_AddEmptyNameReturns": "FALSE",      # D9: repaired by e8e067a
+    "Dev_QuitRefusedWhenBusy": "FALSE",      # D6: repaired by 87748aa
 }
 
 
